@@ -153,6 +153,13 @@ where
             timeline.update(&mut self.current_values, self.state_duration.as_secs_f32());
         }
     }
+
+    /// Verification hook: read-only snapshot of the time spent in the current state and of the
+    /// remembered (paused) animation.
+    #[cfg(feature = "verif-hooks")]
+    pub fn verif_snapshot(&self) -> (Duration, Option<(State, Duration)>) {
+        (self.state_duration, self.paused_animation.clone())
+    }
 }
 
 impl<State, Timeline, TimelineMap> StateAnimator
